@@ -9,6 +9,9 @@ MUT=/var/tmp/rtmut
 for pc in $LIST; do
   id=${pc%%:*}; c=${pc##*:}
   rm -rf $MUT; rsync -a --exclude target --exclude .git /repo/ $MUT/
+  # cargo's freshness check is mtime based ("a source newer than the last build"): a file RESTORED by rsync carries its old mtime, so a crate
+  # that the previous mutant changed and this one does not would silently keep the previous mutant's artefact.  Make every crate root new.
+  touch $MUT/frost-*/src/lib.rs
   if ! git -C /repo show $c | (cd $MUT && patch -s -R -p1) >/dev/null 2>&1; then echo "$pc REVERT-DOES-NOT-APPLY"; continue; fi
   out=$TD/revert-$id-$c.json; rm -f $out
   r=$(python3 $HERE/run_rt.py $id --repo $MUT --target-dir $TD --budget-s ${BUDGET:-20} --seed ${SEED:-1} --out $out --quiet 2>/dev/null | tail -1)
